@@ -84,8 +84,9 @@ def cases(rng, tier, shard, nshards, phase):
         if rng.random() < 0.35:
             spec, kind = cycle_spec(rng)
         else:
-            spec = gen.gen_ranked_spec(rng, nmin=2, nmax=6, ties=False, partial=True, bmin=1, bmax=8)
-            kind = "random"
+            tied = rng.random() < 0.3
+            spec = gen.gen_ranked_spec(rng, nmin=2, nmax=6, ties=tied, partial=True, bmin=1, bmax=8)
+            kind = "random-tied" if tied and any(len(s0) > 1 for b in spec["b"] for s0 in b["r"]) else "random"
         yield {"spec": spec, "kind": kind, "m": rng.randint(1, len(spec["c"])), "rs": rng.randint(0, 10 ** 9)}
 
 
@@ -93,8 +94,8 @@ def margins(spec):
     n = len(spec["c"])
     M = {(a, b): Fraction(0) for a in spec["c"] for b in spec["c"] if a != b}
     for bl in spec["b"]:
-        r = [c for s in bl["r"] for c in s]
-        pos = {c: i for i, c in enumerate(r)}
+        # position = index of the group a candidate stands in: candidates tied on a ballot are ranked neither way
+        pos = {c: i for i, s in enumerate(bl["r"]) for c in s}
         w = Fraction(bl["w"])
         for a in spec["c"]:
             for b in spec["c"]:
@@ -218,6 +219,8 @@ def run_case(vk, case):
     elif cb["status"] != "ok":
         fail("condoborda-raises", cb.get("msg", ""))
     req = {"op": "pairwise", "profile": gen.model_profile(spec)}
+    if case["kind"] == "random-tied":
+        req = None      # the Lean model of the pairwise graph covers untied ballots; tied ballots are carried by the monitors
     expect = {"ok": {"dict": sorted([a, b, rat(v)] for (a, b), v in pd.items()), "tiers": tiers, "fill_agrees": True}}
     return {"req": req, "expect": expect, "monitors": monitors, "tags": tags,
             "nontrivial": len(spec["b"]) > 1 and n > 2}
